@@ -5,6 +5,11 @@
     - Go [[]byte] that may be [nil] in hostile input is [option bytes] ([None] = nil).
     - Results are [ires]: [IOk x] | [IErr] (Go returns an error) | [IPanic] (Go panics:
       slice index / slice bounds out of range, nil dereference, makeslice len out of range).
+      Every slice access keeps an explicit bounds check in the model; since the fixes
+      f7b1f2c (Importer.Add: negative version) and a7a4939 (CompressImporter.Add / deltaDecode)
+      the importers' [IPanic] branches are unreachable (ExportImportFacts.importer_total,
+      compress_importer_total); what remains is newImporter's [make] for an absurd import
+      version and the CompressExporter's unchecked version stack.
     - Stacks are lists with the TOP at the HEAD ([stack[len-1]] = head, [stack[len-2]] = second).
     - [int64] arithmetic that can overflow on hostile input (version deltas of the compress
       codec) wraps ([wrap64]); [uint32] nonces wrap ([u32]).  [ExportNode.Height] is an
@@ -44,9 +49,7 @@ Arguments IPanic {A}.
 Definition ibind {A B} (r : ires A) (f : A -> ires B) : ires B :=
   match r with IOk a => f a | IErr => IErr | IPanic => IPanic end.
 
-(** "Replace every panic by an error": the behaviour of the importers once each unguarded
-    index is guarded by an error return (wherever the guard is put: a panicking [Add]
-    and a failing [Add] both leave the caller with the previous state). *)
+(** "Replace every panic by an error" (kept for comparing against older, unguarded code). *)
 Definition ires_fix {A} (r : ires A) : ires A :=
   match r with IPanic => IErr | x => x end.
 
@@ -156,6 +159,7 @@ Section Importer.
       | None => IErr                                          (* node cannot be nil *)
       | Some n =>
           if i_version st <? e_version n then IErr            (* version > import version *)
+          else if e_version n <? 0 then IErr                  (* version can't be negative *)
           else
             let h := e_height n in
             let built : ires (list pnode * Z * option (node * node)) :=
@@ -178,7 +182,9 @@ Section Importer.
             match built with
             | IOk (stk, sz, kids) =>
                 let v := e_version n in
-                (* i.nonces[exportNode.Version]++ : index into a slice of length version+1 *)
+                (* i.nonces[exportNode.Version]++ : index into a slice of length version+1;
+                   the explicit bounds check of the slice access: unreachable thanks to the
+                   two version guards above (ExportImportFacts.imp_add_no_panic) *)
                 if (v <? 0) || (i_version st + 1 <=? v) then IPanic
                 else
                   let c := u32 (nonce_get v (i_nonces st) + 1) in
@@ -243,18 +249,18 @@ Definition delta_encode (key last : bytes) : bytes :=
   let shared := diff_offset last key in
   uvarint_enc (N.of_nat shared) ++ skipn shared key.
 
-(** deltaDecode.  [lastKey[:shared]] is a slice-bounds panic when [shared > cap(lastKey)];
-    the model takes [cap = len] (true for keys produced by deltaDecode's own [make], and
-    for the tail [key[n:]] of an exactly-allocated input key; when the caller's key has
-    spare capacity Go silently reads the bytes behind it instead of panicking).  For such
-    a [shared] Go may panic even earlier in [make] (len out of range). *)
+(** deltaDecode.  The guard [shared > len(lastKey)] returns an error, so [lastKey[:shared]]
+    stays within the LENGTH of the previous key (before the guard existed this was a
+    slice-bounds panic when [shared > cap(lastKey)], and a silent read of the spare
+    capacity when [len < shared <= cap]; both are gone, the cap/len distinction no longer
+    matters) and [make([]byte, shared+len(key))] cannot overflow. *)
 Definition delta_decode (key : option bytes) (last : bytes) : ires bytes :=
   match uvarint_dec (key_bytes key) with
   | None => IErr                                      (* uvarint parse failed *)
   | Some (shared, n) =>
       let rest := skipn n (key_bytes key) in
       if (shared =? 0)%N then IOk rest
-      else if (N.of_nat (length last) <? shared)%N then IPanic
+      else if (N.of_nat (length last) <? shared)%N then IErr   (* shared exceeds previous key *)
       else IOk (firstn (N.to_nat shared) last ++ rest)
   end.
 
@@ -297,7 +303,11 @@ Definition cimp_step (st : cimp_state) (n : cnode) : ires (cimp_state * enode) :
     ibind (delta_decode (e_key n) (ci_last st)) (fun key =>
       IOk (CImp key (key :: ci_minkeys st) (e_version n :: ci_vers st),
            ENode (Some key) (e_value n) (e_version n) (e_height n)))
+  else if Nat.ltb (length (ci_minkeys st)) 1 || Nat.ltb (length (ci_vers st)) 2 then
+    IErr                                              (* inner node without two subtrees *)
   else
+    (* the slice accesses below keep their explicit bounds checks; the guard above makes
+       the IPanic branches unreachable (ExportImportFacts.cimp_step_no_panic) *)
     match ci_minkeys st with
     | [] => IPanic                                    (* minKeyStack[len-1], len = 0 *)
     | k :: mks =>
@@ -310,10 +320,10 @@ Definition cimp_step (st : cimp_state) (n : cnode) : ires (cimp_state * enode) :
         end
     end.
 
-(** A nil *ExportNode is dereferenced ([node.Height]) before anything else. *)
+(** A nil *ExportNode is rejected first. *)
 Definition cimp_add (st : cimp_state) (on : option cnode) : ires (cimp_state * enode) :=
   match on with
-  | None => IPanic
+  | None => IErr                                      (* node cannot be nil *)
   | Some n => cimp_step st n
   end.
 
@@ -348,7 +358,8 @@ End CompressImporter.
 
 (** ** Importer sessions: what a caller can observe.  [s_visible] is the root made visible
     in the tree / database ([None]: nothing, the tree is still empty at version 0).  A Go
-    panic ends the session (the Go importer may by then have popped two stack entries). *)
+    panic would end the session (no step of a session can panic any more:
+    ExportImportFacts.imp_add_no_panic, imp_commit_no_panic). *)
 Inductive iop := IAdd (n : option enode) | ICommit | IClose.
 
 Record sess := Sess { s_imp : imp_state; s_visible : option (option node) }.
